@@ -337,7 +337,8 @@ COMBOS = [dict(cmd=c, calc=k, nac=n, explicit_calc=e, born_late=b)
 def wf_specs(draw, tier):
     combo = draw(st.sampled_from(COMBOS))
     spec = {"key": draw(keys), "proto": draw(st.sampled_from(["nacl_f", "cscl", "tric"])), "dim": draw(st.sampled_from([[2, 2, 2], [1, 1, 1], [2, 1, 1]])),
-            "mode": draw(st.sampled_from(["mesh_tprop", "band", "qpoints", "dos", "pdos", "tdisp", "writefc_readfc"])),
+            "mode": draw(st.sampled_from(["mesh_tprop", "band", "qpoints", "dos", "pdos", "tdisp", "tdispmat", "writefc_readfc", "disp"])),
+            "pm": draw(st.sampled_from(["auto", "true", "false"])), "diag": draw(st.booleans()), "amp": draw(st.sampled_from(["0.03", "0.011"])),
             "mesh": draw(st.lists(st.integers(2, 5), min_size=3, max_size=3)),
             "tmin": draw(st.sampled_from([0, 50, 100])), "tmax": draw(st.sampled_from([300, 400, 750])), "tstep": draw(st.sampled_from([50, 100, 150])),
             "sigma": draw(st.sampled_from([None, 0.1, 0.25])), "gamma_center": draw(st.booleans()), "eigvecs": draw(st.booleans()),
@@ -346,6 +347,10 @@ def wf_specs(draw, tier):
         # band paths with similar q-spacing depend on the reciprocal metric: prefer a strongly non-orthogonal cell there
         spec["proto"] = draw(st.sampled_from(["shear", "shear", "shear", "tric", "nacl_f", "cscl"]))
         spec["band_const"] = draw(st.sampled_from([True, True, False]))
+    if spec["mode"] == "disp":
+        # plus-minus settings matter where +d and -d are not symmetry-equivalent: low-symmetry prototypes
+        spec["proto"] = draw(st.sampled_from(["tric", "shear", "tric", "nacl_f"]))
+        spec["pm"] = draw(st.sampled_from(["false", "false", "true", "auto"]))
     spec.update(combo)
     return spec
 
@@ -454,10 +459,54 @@ def _common_args(spec, cellfile, pa, use_load):
     return a
 
 
+def _run_disp(spec, td, dA, cellfile, pa):
+    """'phonopy -d' with the displacement settings given as options and as tags == Phonopy.generate_displacements with the same settings."""
+    import phonopy
+
+    cwd = os.getcwd()
+    os.chdir(dA)
+    try:
+        lib = phonopy.load(unitcell_filename=cellfile, supercell_matrix=np.diag(spec["dim"]), primitive_matrix=pa, calculator=spec["calc"],
+                           produce_fc=False, log_level=0)
+    finally:
+        os.chdir(cwd)
+    pm = {"auto": "auto", "true": True, "false": False}[spec["pm"]]
+    lib.generate_displacements(distance=float(spec["amp"]), is_plusminus=pm, is_diagonal=spec["diag"])
+    want = np.array([[dd["number"]] + list(dd["displacement"]) for dd in lib.dataset["first_atoms"]])
+    classes = ["mode:disp", "pm:" + spec["pm"], "diag:%s" % spec["diag"], "calc:" + spec["calc"], "proto:" + spec["proto"]]
+    routes = {}
+    conf = ["CREATE_DISPLACEMENTS = .TRUE.", "DIM = " + " ".join(str(x) for x in spec["dim"]), "CELL_FILENAME = " + cellfile, "DISPLACEMENT_DISTANCE = " + spec["amp"]] + \
+        (["PRIMITIVE_AXES = " + pa] if pa else []) + ({"auto": [], "true": ["PM = .TRUE."], "false": ["PM = .FALSE."]}[spec["pm"]]) + \
+        ([] if spec["diag"] else ["DIAG = .FALSE."])
+    routes["tags"] = ((["--qe"] if spec["calc"] == "qe" else []) + ["p.conf"], conf)
+    if spec["pm"] != "false":  # there is no option that switches plus-minus displacements off
+        routes["options"] = ((["--qe"] if spec["calc"] == "qe" else []) + ["-d", "--dim"] + [str(x) for x in spec["dim"]] + (["--pa", pa] if pa else []) +
+                             ["-c", cellfile, "--amplitude", spec["amp"]] + (["--pm"] if spec["pm"] == "true" else []) + ([] if spec["diag"] else ["--nodiag"]), None)
+    for name, (argv, conf_lines) in routes.items():
+        d = os.path.join(td, "disp_" + name)
+        os.makedirs(d)
+        shutil.copy(os.path.join(dA, cellfile), d)
+        if conf_lines is not None:
+            with open(os.path.join(d, "p.conf"), "w") as f:
+                f.write("\n".join(conf_lines) + "\n")
+        r = cli("phonopy", argv, d)
+        if r.returncode != 0 or not os.path.exists(os.path.join(d, "phonopy_disp.yaml")):
+            return Out(ok=False, classes=classes, msg="phonopy %s failed (%s route): rc %s\n%s" % (" ".join(argv), name, r.returncode, (r.stdout + r.stderr)[-800:]))
+        y = _yaml(os.path.join(d, "phonopy_disp.yaml"))
+        got = np.array([[dd["atom"] - 1] + list(dd["displacement"]) for dd in y["displacements"]])
+        if got.shape != want.shape or np.abs(got - want).max() > 1e-12:
+            return Out(ok=False, classes=classes, msg="'phonopy -d' (%s route: %s) wrote %d displacements, Phonopy.generate_displacements(distance=%s, is_plusminus=%r, "
+                       "is_diagonal=%s) gives %d%s" % (name, conf_lines if conf_lines else " ".join(argv), len(got), spec["amp"], pm, spec["diag"], len(want),
+                                                       "" if got.shape != want.shape else "; values differ by %.3e" % np.abs(got - want).max()))
+    return Out(ok=True, nontrivial=spec["pm"] != "auto" or not spec["diag"], classes=classes)
+
+
 def _run_workflow(spec, td):
     dA = os.path.join(td, "A")
     os.makedirs(dA)
     ph0, cellfile, pa, spec = make_inputs(spec, dA)
+    if spec["mode"] == "disp":
+        return _run_disp(spec, td, dA, cellfile, pa)
     ref = lib_reference(spec, dA, cellfile, pa)
     use_load = spec["cmd"] == "phonopy-load"
     mode = spec["mode"]
@@ -513,6 +562,10 @@ def _run_workflow(spec, td):
         else:
             opts = ["--mesh"] + mesh + ["--pdos", "1, 2"] + win + (["--sigma", str(spec["sigma"])] if spec["sigma"] else [])
             conf_lines = ["MESH = " + " ".join(mesh), "PDOS = 1, 2"] + winc + (["SIGMA = %s" % spec["sigma"]] if spec["sigma"] else [])
+    elif mode == "tdispmat":
+        opts = ["--mesh"] + mesh + ["--tdm", "--tmin", str(spec["tmin"]), "--tmax", str(spec["tmax"]), "--tstep", str(spec["tstep"]), "--fmin", "0.05"]
+        conf_lines = ["MESH = " + " ".join(mesh), "TDISPMAT = .TRUE.", "TMIN = %s" % spec["tmin"], "TMAX = %s" % spec["tmax"], "TSTEP = %s" % spec["tstep"],
+                      "FMIN = 0.05"]
     elif mode == "tdisp":
         opts = ["--mesh"] + mesh + ["--td", "--tmin", str(spec["tmin"]), "--tmax", str(spec["tmax"]), "--tstep", str(spec["tstep"]), "--fmin", "0.05"]
         conf_lines = ["MESH = " + " ".join(mesh), "TDISP = .TRUE.", "TMIN = %s" % spec["tmin"], "TMAX = %s" % spec["tmax"], "TSTEP = %s" % spec["tstep"],
@@ -543,7 +596,7 @@ def _run_workflow(spec, td):
     if rB.returncode != 0:
         return Out(ok=False, classes=classes, msg="%s with configuration file failed: rc %s\nconf:\n%s\n%s" % (spec["cmd"], rB.returncode, "\n".join(confB), (rB.stdout + rB.stderr)[-1200:]))
     outfiles = {"mesh_tprop": ["thermal_properties.yaml", "mesh.yaml"], "band": ["band.yaml"], "qpoints": ["qpoints.yaml"], "dos": ["total_dos.dat"],
-                "pdos": ["projected_dos.dat"], "tdisp": ["thermal_displacements.yaml"], "writefc_readfc": ["FORCE_CONSTANTS"]}[mode]
+                "pdos": ["projected_dos.dat"], "tdisp": ["thermal_displacements.yaml"], "tdispmat": ["thermal_displacement_matrices.yaml"], "writefc_readfc": ["FORCE_CONSTANTS"]}[mode]
     for fn in outfiles:
         pa_, pb_ = os.path.join(dA, fn), os.path.join(dB, fn)
         if not os.path.exists(pa_) or not os.path.exists(pb_):
@@ -682,6 +735,24 @@ def compare_with_library(spec, ph, d, mode):
                 ref2 = np.array([want[g].sum(axis=0) for g in groups])
                 if np.abs(got - ref2).max() > 1e-4 * max(1.0, np.abs(ref2).max()):
                     return "projected_dos.dat differs from Phonopy.run_projected_dos (pdos indices 1, 2)"
+    elif mode == "tdispmat":
+        ph.run_mesh(mesh, with_eigenvectors=True, is_mesh_symmetry=False)
+        ph.run_thermal_displacement_matrices(t_min=spec["tmin"], t_max=spec["tmax"], t_step=spec["tstep"], freq_min=0.05)
+        tdm = ph.get_thermal_displacement_matrices_dict()
+        y = _yaml(os.path.join(d, "thermal_displacement_matrices.yaml"))
+        T = np.array([x["temperature"] for x in y["thermal_displacement_matrices"]])
+        if len(T) != len(tdm["temperatures"]) or np.abs(T - tdm["temperatures"]).max() > 1e-6:
+            return "temperatures in thermal_displacement_matrices.yaml %s differ from the library's %s" % (T.tolist(), np.array(tdm["temperatures"]).tolist())
+        for key, lib in (("displacement_matrices", tdm["thermal_displacement_matrices"]), ("displacement_matrices_cif", tdm.get("thermal_displacement_matrices_cif"))):
+            if lib is None or key not in y["thermal_displacement_matrices"][0]:
+                continue
+            lib = np.asarray(lib).real
+            # documented order of the six numbers per atom: xx, yy, zz, yz, xz, xy
+            want = np.array([[[m[0, 0], m[1, 1], m[2, 2], m[1, 2], m[0, 2], m[0, 1]] for m in mats] for mats in lib])
+            got = np.array([x[key] for x in y["thermal_displacement_matrices"]])
+            if got.shape != want.shape or np.abs(got - want).max() > 0.51e-5 + 1e-6 * np.abs(want).max():
+                return "%s in thermal_displacement_matrices.yaml differ from the library (order xx,yy,zz,yz,xz,xy) by %.3e" % (
+                    key, np.abs(got - want).max() if got.shape == want.shape else -1)
     elif mode == "tdisp":
         ph.run_mesh(mesh, with_eigenvectors=True, is_mesh_symmetry=False)
         ph.run_thermal_displacements(t_min=spec["tmin"], t_max=spec["tmax"], t_step=spec["tstep"], freq_min=0.05)
